@@ -65,6 +65,36 @@ Theorem C02_no_loop_blocked_while_recorded : forall (cond action store : Type) (
 Proof. exact pass_noloop. Qed.
 Print Assumptions C02_no_loop_blocked_while_recorded.
 
+(** ... and over WHOLE HISTORIES of engine calls (Proofs/EngineHistoryProofs.v): any number of execute calls with any number
+    of cycles each, set / pop / clear focus, engine.activate_agenda_group, enabling and disabling rules, removing rules and adding new ones in
+    between - as long as reset_no_loop_tracking is not called (and no rule that is not no-loop is added under the same name), a
+    no-loop rule fires at most once in total, and not at all once it is recorded.
+    ([hfired] is the concatenation of the firing sequences of the history's execute calls, the sequence the harness
+    observes through the trace fact.) *)
+From RRE Require Import Model.EngineConc Proofs.EngineHistoryProofs.
+Theorem C02_no_loop_once_per_history : forall ops (es : cengine * store) n,
+  no_reset_for n ops ->
+  NoDup (map r_name (rules (fst es))) ->
+  (forall r, In r (rules (fst es)) -> r_name r = n -> r_noloop r = true) ->
+  (count n (hfired es ops) <= 1)%nat /\
+  (memZ n (fired_global (fst es)) = true -> ~ In n (hfired es ops)).
+Proof. intros ops es n NR ND NL. apply history_noloop_once; [exact NR|split; assumption]. Qed.
+Print Assumptions C02_no_loop_once_per_history.
+
+(** the same for one execute of any engine instance (every condition language and action semantics), across its cycles *)
+Theorem C02_no_loop_once_per_execute : forall (cond action store : Type) (eval : cond -> store -> bool)
+    (act : action -> store -> store * list effect) mc t (e : engine cond action) s n,
+  NoDup (map r_name (rules e)) ->
+  (forall r, In r (rules e) -> r_name r = n -> r_noloop r = true) ->
+  (count n (concat (res_trace (snd (execute eval act mc t e s)))) <= 1)%nat /\
+  (memZ n (fired_global e) = true -> ~ In n (concat (res_trace (snd (execute eval act mc t e s))))).
+Proof.
+  intros cond action store eval act mc t e s n ND NL.
+  destruct (execute_noloop cond action store eval act mc t e s n (conj ND NL)) as (_ & HM & HC & _).
+  split; [exact HC|intros Hm; apply HM; exact Hm].
+Qed.
+Print Assumptions C02_no_loop_once_per_execute.
+
 (** at most one rule of an activation group fires per pass (it is the first one in pass order
     that passed the other gates with a true condition, by C02_pass_order / C02_gates_respected) *)
 Theorem C02_activation_group_one : forall (cond action store : Type) (eval : cond -> store -> bool)
